@@ -120,7 +120,7 @@ static std::string mk_setting(Rng &g, int mi) {
 // Cost parameters in the range real deployments use: every method at the cost crypt_gensalt picks by default (count 0),
 // and hand-spelt costs well above the everyday ranges of mk_setting.  A call then takes 10 ms .. 1 s, so this is drawn
 // rarely, and never for the thread engine (whose instrumentation multiplies the cost).
-static bool g_allow_heavy = false;
+static bool g_allow_heavy = false, g_tier_thorough = false;
 // ... for the thread engine a lighter edition: parameters just past the everyday ranges (where a tree might switch to
 // another code path: a fast loop, a bigger table), cheap enough for instrumented code
 static std::string heavy_lite_setting(Rng &g, int *mi_out) {
@@ -156,6 +156,8 @@ static std::string heavy_setting(Rng &g, int *mi_out) {
       // values deployments use (glibc/libxcrypt default 5000, passlib 535000 / 656000, round numbers), powers of two +- 2
       // (where a tree might switch loops), and the rest log-uniform up to 1.2 million (about a second of native work)
       static const long pop[] = {5000, 10000, 50000, 100000, 500000, 535000, 656000, 1000000};
+      // (thorough tier, one in 40: the ten-million region, where musl caps the parameter - about 5 s of native work)
+      if (g_tier_thorough && g.chance(1, 40)) return std::string(PREFIX[mi]) + "rounds=" + std::to_string(9999990 + g.range(0, 2000000)) + "$" + b64salt(g, (size_t)g.range(1, 16)) + "$";
       long rn = g.chance(1, 3) ? pop[g.below(8)] + g.range(-3, 3) : g.chance(1, 3) ? (1L << g.range(13, 20)) + g.range(-2, 2) : (long)(12001.0 * pow(100.0, (double)g.below(1000) / 1000.0));
       return std::string(PREFIX[mi]) + "rounds=" + std::to_string(rn) + "$" + b64salt(g, (size_t)g.range(1, 16)) + "$";
     }
@@ -186,6 +188,8 @@ static Pool &pool_for(uint64_t poolseed) {
   for (int i = 0; i < 10; i++) p.secrets.push_back(mk_phrase(g, 12 + g.below(i < 7 ? 30 : 200), 1));
   p.secrets.push_back(mk_phrase(g, 65 + g.below(20), 1));   // longer than an HMAC block
   p.secrets.push_back(mk_phrase(g, 511, 1));
+  // shorter than an 8-byte window (most real passwords for the DES-based methods are): searched for as a whole
+  for (int i = 0; i < 3; i++) { std::string sh; while (sh.size() < (size_t)(6 + (i > 0))) { char ch = (char)(1 + g.below(255)); if (sh.find(ch) == std::string::npos) sh += ch; } p.secrets.push_back(sh); }
   for (int mi = 0; mi < 16; mi++)
     for (int k = 0; k < 4; k++) {
       std::string s = mk_setting(g, mi);
@@ -482,6 +486,7 @@ static J base_plan(const std::string &prop, const char *variant, uint64_t seed, 
   p["property"] = prop; p["variant"] = variant; p["seed"] = (long long)seed; p["tier"] = tier;
   J env = J::obj(); env["fill_seed"] = (long long)(1 + g.below(1u << 30)); env["realloc_move"] = g.chance(2, 3); env["entropy_seed"] = (long long)(seed * 2654435761u + 17);
   { Rng le(seed, "locale"); if (le.chance(1, 8)) env["locale"] = le.chance(1, 2) ? "xx_XX.ISO-8859-1" : "C.UTF-8"; }
+  { Rng sf(seed, "softfaults"); if (sf.chance(1, 4)) env["soft_fault_pct"] = (long long)(sf.chance(1, 2) ? 100 : 35); }   // a process where madvise/mlock/mprotect are refused (seccomp, rlimits)
   env["map_limit_mib"] = 48;   // the simulated machine refuses single mappings of 48 MiB and more (16 and 32 MiB shapes still run)
   p["env"] = env;
   p["tasks"] = J::arr();
@@ -491,6 +496,22 @@ static J base_plan(const std::string &prop, const char *variant, uint64_t seed, 
 static J plan_c07(uint64_t seed, const std::string &tier, bool secrets, const std::string &prop) {
   Rng g(seed, "plan"); Pool &pool = pool_for(seed >> 6);
   J p = base_plan(prop, "asan", seed, tier, g);
+  if (tier == "thorough" && prop == "C07" && Rng(seed, "work-marathon").chance(1, 40000)) {
+    // Cumulative work in one process (what a login daemon accumulates in an afternoon): 130-170 bcrypt hashes at cost 12
+    // (2^19 .. 2^19.4 Eksblowfish rounds in total), the same request through all entry points over two objects, with the
+    // application scribbling in between.  About a minute per pass; thorough tier only.
+    J t = J::obj(); t["objs"] = mk_objs(g, 2); t["slots"] = 1; J ops = J::arr();
+    std::string st = ref_gensalt("$2b$", 12, rnd_bytes(g, 16)); std::string ph = mk_phrase(g, (size_t)g.range(1, 40), 0);
+    int n = (int)g.range(130, 170);
+    for (int i = 0; i < n && !st.empty(); i++) {
+      J op = J::obj(); op["k"] = hash_kind(g, true); place(g, op, 2, 1);
+      op["ph"] = Bytes(ph).to_json(); op["st"] = Bytes(st).to_json(); op["m"] = "bcrypt"; op["cls"] = "valid-heavy";
+      ops.push(op);
+      if (g.chance(1, 10)) { J sc = J::obj(); sc["k"] = "scribble"; sc["obj"] = (long long)g.below(2); sc["what"] = g.chance(1, 2) ? "garbage" : "appfields"; sc["gseed"] = (long long)g.below(100000); ops.push(sc); }
+    }
+    t["ops"] = ops; p["tasks"].push(t);
+    return p;
+  }
   int nobj = 1 + (int)g.below(4), nslots = 1 + (int)g.below(2);
   J t = J::obj(); t["objs"] = mk_objs(g, nobj); t["slots"] = nslots;
   J ops = J::arr();
@@ -753,6 +774,13 @@ static J plan_c17(uint64_t seed, const std::string &tier) {
       // hashing traffic, DES-based methods preferred: the static key must survive it
       Req r = valid_req(g, pool, false, 2);
       if (g.chance(1, 2)) for (int tries = 0; tries < 30 && r.m != "descrypt" && r.m != "bigcrypt" && r.m != "bsdicrypt"; tries++) r = valid_req(g, pool, false, 2);
+      if (g.chance(1, 4)) {
+        // salt 0: the salted, iterated block function is then plain DES applied count times to the zero block, which
+        // the model can say (phrases of at most 8 bytes: the key is the phrase shifted left by one, no folding)
+        r.ph = Bytes(mk_phrase(g, (size_t)g.below(9), (int)g.below(2))); r.cls = "valid-fresh";
+        if (g.chance(1, 2)) { r.st = Bytes(std::string("..") + (g.chance(1, 2) ? b64salt(g, 11) : "")); r.m = "descrypt"; }
+        else { unsigned v = (unsigned)g.range(1, 60); std::string s = "_"; for (int q = 0; q < 4; q++) { s += B64[v & 63]; v >>= 6; } r.st = Bytes(s + "...."); r.m = "bsdicrypt"; }
+      }
       op["k"] = hash_kind(g, true); place(g, op, nobj, 1); put_req(op, r);
       if (!r.ph.null) lastphrase = r.ph.b;
       if (op.has("obj")) keyed[(size_t)op.i("obj")] = 0;
@@ -966,6 +994,33 @@ static J plan_c08(uint64_t seed, const std::string &tier) {
   return p;
 }
 
+// C08, second workload: several callers whose large regions (64-512 MiB each, 1.2-2.5 GiB together) are all live at the
+// same time.  Runs on the uninstrumented ASan engine under the coarse scheduler (preemption at allocator and mapping
+// requests only) with hold_after_mmap, so the hashing itself runs at native speed.  What it can see: a call that is
+// refused, slowed into failure or answered differently because of what other callers hold ("every call returns exactly
+// what it would return if run alone"); what it cannot see: races (no instrumentation here).
+static J plan_c08big(uint64_t seed, const std::string &tier) {
+  Rng g(seed, "plan");
+  J p = base_plan("C08", "asan", seed, tier, g);
+  p["env"]["map_limit_mib"] = 600;
+  int shape = (int)g.below(3);   // 0: 5-7 x 256 MiB, 1: 3-4 x 512 MiB, 2: 9-12 x 128 MiB
+  int nt = shape == 0 ? (int)g.range(5, 7) : shape == 1 ? (int)g.range(3, 4) : (int)g.range(9, 12);
+  int l2 = shape == 0 ? 8 : shape == 1 ? 9 : 7;
+  for (int ti = 0; ti < nt; ti++) {
+    J t = J::obj(); t["objs"] = mk_objs(g, 1); t["slots"] = 1;
+    J ops = J::arr();
+    int mi = g.chance(1, 4) ? 1 : 0;   // (scrypt is several times slower per byte)
+    std::string st = big_setting(g, mi, l2);
+    J op = J::obj(); op["k"] = g.chance(1, 2) ? "crypt_ra" : "crypt_rn"; if (op.str("k") == "crypt_ra") op["slot"] = 0; else op["obj"] = 0;
+    op["ph"] = Bytes(mk_phrase(g, (size_t)g.range(1, 40), 0)).to_json(); op["st"] = Bytes(st).to_json(); op["m"] = METHODS[mi]; op["cls"] = "valid-big"; op["huge_ok"] = g.chance(1, 2);
+    ops.push(op);
+    if (g.chance(1, 2)) { J o2 = J::obj(); o2["k"] = "crypt_rn"; o2["obj"] = 0; o2["ph"] = Bytes(std::string("pw")).to_json(); o2["st"] = Bytes(std::string("$1$abcdefgh$")).to_json(); o2["m"] = "md5crypt"; o2["cls"] = "valid"; ops.a.insert(ops.a.begin() + (long)g.below(2), o2); }
+    t["ops"] = ops; p["tasks"].push(t);
+  }
+  J sch = J::obj(); sch["mode"] = "coarse"; sch["hold_after_mmap"] = 1; p["schedule"] = sch;
+  return p;
+}
+
 // C12 workload B: fallback entropy chain under a seeded syscall fault schedule; faults stop after a while
 static J plan_c12b(uint64_t seed, const std::string &tier) {
   Rng g(seed, "plan");
@@ -1122,14 +1177,28 @@ static J with_big_real(J p, uint64_t seed) {
   return p;
 }
 static J generate_plan_(const std::string &prop, uint64_t seed, const std::string &tier);
+// Time passes between calls: mostly not at all, sometimes seconds, sometimes the jump a suspended laptop, an NTP step or
+// a long-lived daemon sees (minutes to months, or backwards).  Fallback-entropy processes get more of it (a tree may
+// time its retries).  The simulated clock is the only one library code can read.
+static void with_clock(J &p, uint64_t seed, const std::string &prop) {
+  Rng g(seed, "clock");
+  static const long long jumps[] = {1, 2, 5, 59, 60, 61, 299, 300, 301, 599, 600, 601, 899, 900, 901, 3599, 3600, 3601, 86399, 86400, 86401, 604800, 2592000, 31536000, 100000, -1, -60, -3600, -86400};
+  unsigned per = prop == "C12B" ? 6 : 30;
+  if (!p.has("tasks")) return;
+  if (g.chance(1, 4)) p["env"]["clock0"] = (long long)g.range(-1000000000, 2000000000);   // the process starts at another time (1998 .. 2087)
+  for (auto &t : p["tasks"].a) for (auto &op : t["ops"].a) if (g.chance(1, per)) op["clock"] = jumps[g.below(sizeof jumps / sizeof *jumps)];
+}
 J generate_plan(const std::string &prop, uint64_t seed, const std::string &tier) {
   J p = generate_plan_(prop, seed, tier);
+  if (prop != "C15corpus" && prop != "C05sweep") with_clock(p, seed, prop);
   if (prop == "C05" || prop == "C05ft" || prop == "C07" || prop == "C09" || prop == "C14" || prop == "C15") return with_big_real(p, seed);
   return p;
 }
 static J generate_plan_(const std::string &prop, uint64_t seed, const std::string &tier) {
-  g_allow_heavy = !(prop == "C08" || prop == "C17t" || prop == "C12B" || prop == "C15corpus" || prop == "C05sweep");
+  g_tier_thorough = tier == "thorough";
+  g_allow_heavy = !(prop == "C08" || prop == "C08big" || prop == "C17t" || prop == "C12B" || prop == "C15corpus" || prop == "C05sweep");
   if (prop == "C12B") return plan_c12b(seed, tier);
+  if (prop == "C08big") return plan_c08big(seed, tier);
   if (prop == "C17t") return plan_c17t(seed, tier);
   if (prop == "C05sweep") { long total = 0; J p = plan_c05sweep(seed, &total); if (p.is_null()) { J e = J::obj(); e["total"] = (long long)total; return e; } return p; }
   if (prop == "C07") return plan_c07(seed, tier, false, "C07");
